@@ -142,7 +142,7 @@ class pointwise_aggregates {
                                 ptrdiff_t end = e[k];
 
                                 while(beg < end && A.col[beg] < col_end) {
-                                    strong_connection[beg] = sp && A.col[beg] != (ia + k);
+                                    strong_connection[beg] = sp && A.col[beg] != static_cast<ptrdiff_t>(ip * prm.block_size + k);
                                     ++beg;
                                 }
 
